@@ -179,6 +179,23 @@ def setupNewUser (s : St Id) (id : Id) (canWrite : Bool) : M (St Id × Ret × In
       else if canWrite then pure (s', .ok, uid)
       else pure (s', .errWrite, uid)    -- the unchanged code returns the error and leaves the slot assigned
 
+/-- ptt.tryCleanUser → killUser, as far as this property is concerned: the sweep that SetupNewUser runs when no slot is
+free (and `.fresh` is older than an hour) zeroes the .PASSWDS records of the expired accounts (`expirable`: the slots
+whose record is old enough; uid 1 is never looked at, a record without id never expires) — and does NOT touch the
+index in shared memory: the registration that triggered it is still refused. -/
+def sweepFile (expirable : List Nat) (recs : List Id) : List Id :=
+  let rec go (rs : List Id) (k : Nat) : List Id :=
+    match rs with
+    | [] => []
+    | r :: rest => (if 1 ≤ k ∧ expirable.contains k ∧ !e.isEmpty r then e.zero else r) :: go rest (k + 1)
+  go recs 0
+
+/-- SetupNewUser with the sweep due: the index part is `setupNewUser`; the sweep runs exactly when the id is new and
+no free slot was found, and then only rewrites the file. -/
+def setupNewUserSweep (s : St Id) (recs : List Id) (expirable : List Nat) (id : Id) : M (St Id × Ret × Int × List Id) := do
+  let (s', r, uid) ← setupNewUser e s id true
+  pure (s', r, uid, if r = .errInvalidUID then sweepFile e expirable recs else recs)
+
 /-! ### the loader -/
 
 /-- userecRawAddToUHash's walk: `for val >= 0 && val < MAX_USERS { if isOnfly && val == uid { return }; p = val;
